@@ -114,8 +114,8 @@ struct construct_at {
   }
 };
 
-template <class T, class B, class... Args>
-struct construct_at<typename std::enable_if<std::is_same<B, T>::value>::type, T, B, Args...> {
+template <class T, class B>
+struct construct_at<typename std::enable_if<std::is_same<B, T>::value>::type, T, B> {
   typedef typename std::conditional<std::is_trivially_copyable<T>::value, TriviallyCopyable,
                                     typename std::conditional<std::is_array<T>::value, NonTriviallyCopyableArray,
                                                               NonTriviallyCopyable>::type>::type TypeTraits;
